@@ -8,13 +8,12 @@ from framework import PropertyCheck
 
 class Check(PropertyCheck):
     ID = "C01"
-    LEAN_MODULE = "JobShopProofs.Properties.C01"
+    LEAN_MODULE = "JobShopProofs.ObserversTransparent"
     THEOREMS = [
         "JS.C01_feasible",
         "JS.C01_feasible_filtered",
         "JS.C01_complete_iff",
-        "JS.C01_accepts_ready_eligible",
-    ]
+        "JS.C01_accepts_ready_eligible", "JS.C01_world_feasible"]
     RULE = ("random instance (10 families: classic, irregular, recirculation, flexible, zero durations, unused "
             "machine ids, single job/machine, ties) x random filter configuration x random valid dispatch history "
             "with invalid requests injected, in half of the scenarios followed by reset() and a second episode; full state snapshot compared with the Lean model after every request "
